@@ -672,7 +672,13 @@ def c11_compare(case, verdict):
     if isinstance(impl, dict) and "error" in impl:
         return {"agree": False, "holds": None, "detail": "harness error: " + str(impl["error"])[:300]}
     k = case.get("k")
-    if k == "fbits":
+    if k == "init":
+        if not isinstance(impl, dict) or "trace" not in impl:
+            # invalid generated problem / inexact times: nothing to compare (raw-problem cases carry a trace)
+            return {"agree": None, "holds": None, "detail": "no trace", "skipped": True}
+        # impl.trace (the solver's core solution) is the model's input; everything else is compared
+        agree = {k_: v_ for k_, v_ in impl.items() if k_ != "trace"} == model
+    elif k == "fbits":
         # arbitrary float bit patterns: f64 text printing/parsing is out of model; only acceptance is compared,
         # the 1-ulp oracle is evaluated on the real output
         agree = isinstance(impl, dict) and isinstance(model, dict) and impl.get("ok") == model.get("ok")
